@@ -807,9 +807,7 @@ func (e *Exec) doAssert(label string, c *Term) {
 
 func (e *Exec) assumeAfterAssert(c *Term) {
 	if c.IsConst() {
-		if !c.b {
-			panic(abortRun{kind: "done", msg: "assertion is constantly false on this path"})
-		}
+		// a constantly false assertion has been reported; the path goes on unconstrained
 		return
 	}
 	if !e.replaying() {
